@@ -79,6 +79,9 @@ pub struct RlCase {
     /// readiness first, as the Service contract asks). Ignored when the case has a stall.
     #[serde(default)]
     pub busy: Option<(Rel, Rel)>,
+    /// every kind of event listener is registered on the layer
+    #[serde(default)]
+    pub listeners: bool,
 }
 
 /// Periods P (ms) for which the f64 quotient (2P)/P evaluates below 2.0 (sliding-counter bucket
@@ -146,10 +149,11 @@ fn case_strategy(tier: Tier) -> BoxedStrategy<RlCase> {
             0u8..8,
             prop_oneof![4 => Just(0u32), 1 => prop_oneof![Just(1u32), Just(300u32), Just(999u32), 1u32..=999]],
             prop_oneof![4 => Just(None), 1 => (rel(8), rel(3)).prop_map(Some)],
+            prop::bool::weighted(0.3),
         ),
     )
         .prop_map(
-            |(window, limit, period, timeout, clones, callers, order, stall, (timeout_forever, setter_order, build_offset_us, busy))| RlCase {
+            |(window, limit, period, timeout, clones, callers, order, stall, (timeout_forever, setter_order, build_offset_us, busy, listeners))| RlCase {
                 window,
                 limit,
                 period,
@@ -161,6 +165,7 @@ fn case_strategy(tier: Tier) -> BoxedStrategy<RlCase> {
                 callers,
                 order,
                 busy: if stall.is_some() { None } else { busy },
+                listeners,
                 stall,
             },
         )
@@ -279,8 +284,16 @@ async fn interp(case: &RlCase) -> Verdict {
     // deadline, which the deadline rules below allow for
     crate::vclock::advance_ns(case.build_offset_us as u64 * 1_000);
     let slack = (case.build_offset_us > 0) as u64;
+    let b0 = if case.listeners {
+        RateLimiterLayer::builder()
+            .on_permit_acquired(|_| {})
+            .on_permit_rejected(|_| {})
+            .on_permits_refreshed(|_| {})
+    } else {
+        RateLimiterLayer::builder()
+    };
     let layer = crate::gen::apply_in_order(
-        RateLimiterLayer::builder(),
+        b0,
         vec![
             Box::new(move |b| b.limit_for_period(limit)),
             Box::new(move |b| b.refresh_period(Duration::from_millis(p))),
@@ -669,6 +682,9 @@ async fn interp(case: &RlCase) -> Verdict {
     }
     if cancelled_waiting.iter().any(|&c| c) {
         v.classes.push("cancel_while_waiting");
+    }
+    if case.listeners {
+        v.classes.push("event_listeners_registered");
     }
     if busy.is_some() {
         v.classes.push("inner_service_busy_for_a_while");
